@@ -1,6 +1,7 @@
 package checks
 
 import (
+	"strings"
 	"fmt"
 	"time"
 
@@ -62,6 +63,7 @@ type lwDef struct {
 	measMode    int
 	constSeries bool // groundwater series with one level throughout: a constant groundwater depth
 	measShort   bool    // the measurement file has the short layout: readings for 0-9 dm only
+	autoRot     int         // >0: rotation c16Rots[autoRot-1] under automatic sowing and harvest (management table of C16, base variant)
 	heights     *[3]float64 // weather files with the third header line (altitude, wind height, base CO2)
 	leachAbove  bool    // leaching depth above the profile bottom (outside C02's quantifier)
 	rootDepth   int     // soil root depth (dm); 0 = min(profile, 12)
@@ -158,6 +160,10 @@ func lwDefs() []lwDef {
 		{name: "explicit-over-table-horizons-sinus", soil: "mixedet12", gw: 99, gh: 2, gl: 11, et: 3, start: s2, days: 460, initW: 0.6, initN: 30,
 			rot:  []proj.CropEntry{{Crop: "SM", Sow: "2002-04-25", Harvest: "2002-10-10", Rex: 0}, {Crop: "WW", Sow: "2002-10-20", Harvest: "2003-08-05"}},
 			fert: []proj.Fert{{Date: "2002-05-20", Amount: 100, Kind: "KAS"}}},
+		{name: "loam-automatic-sowing-and-harvest", soil: "loam12", gw: 99, et: 3, start: s1, days: 900, initW: 0.7, initN: 40, autoRot: 2,
+			cfg: map[string]string{"AutoSowingHarvest": "1", "AutoHarvest": "1", "AutoIrrigation": "1"}},
+		{name: "sand-automatic-harvest-only", soil: "sand20", gw: 14, et: 2, start: s1, days: 760, initW: 0.7, initN: 40, autoRot: 1,
+			cfg: map[string]string{"AutoHarvest": "1", "AutoFertilization": "1"}},
 		{name: "loam-constant-series-12", soil: "silt20", gw: 99, series: [][2]float64{{-5, 12}, {100, 12}, {333, 12}, {500, 12}}, constSeries: true, et: 3, start: s2, days: 520, initW: 0.7, initN: 30,
 			rot:  []proj.CropEntry{{Crop: "SW", Sow: "2002-03-25", Harvest: "2002-08-20", Rex: 50}, {Crop: "WW", Sow: "2002-10-01", Harvest: "2003-08-05"}},
 			fert: []proj.Fert{{Date: "2002-04-10", Amount: 70, Kind: "KAS"}, {Date: "2003-03-10", Amount: 90, Kind: "KAS"}}},
@@ -245,6 +251,22 @@ func lwBuild(sp lwSpec) *lwInfo {
 	p := e1Project(b, df.days)
 	p.Rotation = append(p.Rotation[:1], df.rot...)
 	p.Fert, p.Irr, p.Till = df.fert, df.irr, df.till
+	if df.autoRot > 0 {
+		var table strings.Builder
+		table.WriteString("crp Sow1 Sow2 har2 TSmin Smomin Smomax Hmomin Hmomax Rainav Rainact TACCU Tbase Irrdv1 Irrdv2 Ndem1 Ndem2 Ndem3 stage1 stage 2 stage 3 Twindow orgF  amount appdat Irrlow irrdep irrmax\n")
+		seen := map[string]bool{}
+		p.Rotation = p.Rotation[:1]
+		for _, cr := range c16Rots[df.autoRot-1] {
+			p.Rotation = append(p.Rotation, proj.CropEntry{Crop: cr.code, Sow: cr.sow, Harvest: cr.harvest, Rex: 50})
+			if !seen[cr.code] {
+				table.WriteString(c16Row(cr, 0) + "\n")
+				seen[cr.code] = true
+			}
+		}
+		table.WriteString(c16Row(c16Crop{"WW", "", "", "2009", "2510", "1508", 0}, 0) + "\n")
+		p.Rotation = append(p.Rotation, proj.CropEntry{Crop: "WW", Sow: "2008-10-01", Harvest: "2009-07-30"})
+		p.Automan = table.String()
+	}
 	if df.et == 1 {
 		p.VerdColumn = true
 	}
